@@ -121,6 +121,13 @@ Theorem call_spec_is_uncached : forall r compile c sc pc nc,
   snd (js_call r compile (st_init true pc nc) c sc) = call_spec r compile c sc.
 Proof. exact call_spec_is_uncached. Qed.
 
+(* _node always is the current node: javascript.go puts the node's JSON into the arg map after the
+   caller's args, so a caller arg literally named _node (any position, any value) is overridden;
+   every other arg is untouched *)
+Theorem node_arg_wins : forall (a : gmap N jsval) (j : bytes),
+  node_override a j !! NODE = Some (JStr j) /\ forall k, k <> NODE -> node_override a j !! k = a !! k.
+Proof. exact node_arg_wins. Qed.
+
 (* ---- non-vacuity -------------------------------------------------------------------------------- *)
 (* a runtime table meeting rt_wf; a history in which a call with args {20,21}, a call that
    throws with arg {10} (a built-in's name), and a call with no args that reads 20, 21 and 10
@@ -152,6 +159,13 @@ Proof.
       destruct H1 as [H1|[H1|[H1|[]]]]; subst c1; discriminate.
     + split; [apply st_init_ok|]. vm_compute. reflexivity.
 Qed.
+
+(* a context call that also passes _node = "x": the script sees the node's JSON *)
+Example c20_node_arg_wins :
+  map fst (snd (run r0 (compile_of [(1%N, Some (SVar NODE))]) (st_init false 1 1)
+    [EvCall (mkCall (Some (7%N, hx "7b7d"%string)) 1 [(NmStr NODE, JStr (hx "78"%string))] false)
+            (mkSched ChFresh [NODE] [NODE])])) = [OVal (JsStr (hx "7b7d"%string))].
+Proof. vm_compute. reflexivity. Qed.
 
 Example c20_f6_guard_fails : ~ content_stable_per_id (map fst (calls_of f6_events)).
 Proof. exact f6_not_stable. Qed.
